@@ -248,6 +248,41 @@ Fixpoint mw_bounds (xs rest : list val) (i s : nat) : list (nat * nat) :=
 
 (* ------------------------------------------------------------------ operations *)
 
+(* ------------------------------------------------------------------ private builders
+
+   Many list methods (groupBy*, unique*, movingWindow's outer list, visit/fsm/replaceList results, binning, the
+   Eval loop itself ...) build their result in a PRIVATE slice: `var r []Value` or `make([]Value, 0, n)`, any
+   number of `r = append(r, x)` with whatever growth the runtime chooses, possibly a re-slice `r = r[lo:hi]`
+   within the current length, and finally `NewList(r...)`.  Such a method is a script of builder steps; the
+   slice is referenced by nobody else until NewList receives it. *)
+Inductive bstep :=
+| BAppend (x : val) (c : nat)      (* r = append(r, x); c = the capacity the runtime chooses if it allocates *)
+| BReslice (lo hi : nat).          (* r = r[lo:hi] with lo <= hi <= len(r) (anything else: the step is skipped) *)
+Arguments BAppend x%Z c%nat.
+Arguments BReslice lo%nat hi%nat.
+
+Definition bstep_run (st : arrays * slice) (b : bstep) : arrays * slice :=
+  let '(arrs, s) := st in
+  match b with
+  | BAppend x c => go_append arrs s x c
+  | BReslice lo hi =>
+      if (lo <=? hi) && (hi <=? s_len s)
+      then (arrs, mkS (s_arr s) (s_off s + lo) (hi - lo) (s_cap s - lo))
+      else (arrs, s)
+  end.
+
+(* make([]Value, 0, c0) followed by the script *)
+Definition builder_run (arrs : arrays) (c0 : nat) (script : list bstep) : arrays * slice :=
+  fold_left bstep_run script (arrs ++ [repeat 0%Z c0], mkS (length arrs) 0 0 c0).
+
+(* what the finished slice holds, computed without any heap *)
+Definition bstep_content (xs : list val) (b : bstep) : list val :=
+  match b with
+  | BAppend x _ => xs ++ [x]
+  | BReslice lo hi => if (lo <=? hi) && (hi <=? length xs) then firstn (hi - lo) (skipn lo xs) else xs
+  end.
+Definition content_of (script : list bstep) : list val := fold_left bstep_content script [].
+
 Inductive op :=
 | OLit (xs : list val) (c : nat)            (* list literal / constant-folded list: a fresh array of capacity max c len *)
 | ONumbers (n : nat)                        (* numbers(n): lazily produced, no parent *)
@@ -265,6 +300,7 @@ Inductive op :=
 | OMovWin (a c1 : nat)                      (* movingWindow(e->e): one object per window *)
 | OGuard (v : Z) (a : nat)                  (* map(e->e+0%(e-v)): lazy, fails on elements equal to v *)
 | OStage (st : stage) (a b : nat)           (* merge, cross, combine, ... : a lazy object over a (and b) *)
+| OBuild (c0 : nat) (script : list bstep)   (* a list built in a private slice and handed to NewList once *)
 | OEvalFail (a k : nat).                    (* a materialisation of a (size(), eval(), [i], =, order ...) that is aborted
                                                by an error after k elements and survived by the caller *)
 
@@ -285,6 +321,7 @@ Arguments OMovWin a%nat c1%nat.
 Arguments OGuard v%Z a%nat.
 Arguments OStage st a%nat b%nat.
 Arguments OEvalFail a%nat k%nat.
+Arguments OBuild c0%nat script.
 
 Definition lazy_add (h : heap) (p : producer) : heap := add_obj h (mkO nil_slice false p).
 
@@ -344,6 +381,8 @@ Definition step (h : heap) (o : op) : heap :=
   | OMovWin a c1 => do_movwin h a c1
   | OGuard v a => if a <? nobjs h then lazy_add h (PGuard v a) else h
   | OStage st a b => if (a <? nobjs h) && (b <? nobjs h) then lazy_add h (PStage st a b) else h
+  | OBuild c0 script =>
+      let '(arrs', s) := builder_run (h_arrs h) c0 script in mkH arrs' (h_objs h ++ [new_list s])
   | OEvalFail a k =>
       (* List.Eval: `var it []Value; for v, err := range l.iterable { if err != nil { return err }; it = append(it, v) }`
          the k elements collected so far sit in a backing array nobody refers to; no field of l was written *)
@@ -425,6 +464,7 @@ Definition pstep (ps : pstate) (o : op) : pstate :=
   | OMovWin a _ => if have a then ps ++ map (sub_list (get a)) (mw_bounds (get a) (get a) 0 0) else ps
   | OGuard v a => if have a then ps ++ [map (guard_elem v) (get a)] else ps
   | OStage st a b => if have a && have b then ps ++ [stage_sem st (get a) (get b)] else ps
+  | OBuild _ script => ps ++ [content_of script]
   | OEvalFail _ _ => ps
   end.
 
